@@ -181,7 +181,8 @@ let () =
     let isentf g = Hashtbl.mem fmeta (int_of_nat g) in
     let crash_name c = match c with BadJump -> "BadJump" | Underflow -> "Underflow" | BadRead -> "BadRead"
                                   | BadHeader -> "BadHeader" | RetPartial -> "RetPartial" | RetDepth -> "RetDepth"
-                                  | BadClear -> "BadClear" | BadFuncAddr -> "BadFuncAddr" | BadInstr -> "BadInstr" in
+                                  | BadClear -> "BadClear" | BadFuncAddr -> "BadFuncAddr" | BadInstr -> "BadInstr"
+                                  | NoHandler -> "NoHandler" in
     let rec take k l = if k <= 0 then [] else match l with [] -> [] | x :: t -> x :: take (k - 1) t in
     let found = ref None in
     let budget = ref 400000 in
@@ -221,6 +222,7 @@ let () =
                  try_obs (ipi + 1) (len - pops + pushes);
                  (match handler_of ipi with
                   | Some h when h <> ipi + 1 -> try_obs h len; if pops > 0 then try_obs h (len - pops)
+                  | None -> try_obs (ipi + 2) len     (* a fault here finds no table entry: Crash NoHandler *)
                   | _ -> ())
                | AJump t -> try_obs (int_of_nat t) len
                | AJumpz t -> try_obs (ipi + 1) (len - 1); try_obs (int_of_nat t) (len - 1)
@@ -234,7 +236,7 @@ let () =
                      explore { ip = r; stk = take (fi - 5) s.stk @ [SVal]; p = s.p; f = f0; cur = s.cur } path origin
                    | _ -> found := Some (origin, "BadHeader(call-summary)", List.rev path)
                  end;
-                 (match handler_of ipi with Some h -> try_obs h (len - 1) | None -> ())
+                 (match handler_of ipi with Some h -> try_obs h (len - 1) | None -> try_obs n (len - 1))
                | ARet _ ->
                  (match List.nth_opt s.stk (int_of_nat s.p - 1) with
                   | Some (SIP (r, _)) -> try_obs (int_of_nat r) (int_of_nat s.p - 5 + 1)
@@ -244,7 +246,8 @@ let () =
                | ASlide (q, _) -> try_obs (ipi + 1) (len - int_of_nat q)
                | AMkFunc _ -> try_obs (ipi + 1) len
                | APushParam -> try_obs (ipi + 1) (len + np_of entry_addr)
-               | AFfi r -> try_obs (int_of_nat r) (int_of_nat s.p + 1)
+               | AFfi r -> try_obs (int_of_nat r) (int_of_nat s.p + 1);
+                 (match handler_of ipi with Some h -> try_obs h (int_of_nat s.p) | None -> try_obs n len)
                | AHalt | AUnhandled | ABad -> ())
         end
       end in
@@ -298,7 +301,8 @@ let () =
               | Crash c ->
                 let k = match c with BadJump -> "BadJump" | Underflow -> "Underflow" | BadRead -> "BadRead"
                                    | BadHeader -> "BadHeader" | RetPartial -> "RetPartial" | RetDepth -> "RetDepth"
-                                   | BadClear -> "BadClear" | BadFuncAddr -> "BadFuncAddr" | BadInstr -> "BadInstr" in
+                                   | BadClear -> "BadClear" | BadFuncAddr -> "BadFuncAddr" | BadInstr -> "BadInstr"
+                                  | NoHandler -> "NoHandler" in
                 result := Printf.sprintf "LOCKSTEP crash step=%d at ip=%d kind=%s" !i (int_of_nat !s.ip) k; raise Exit
               | Stop ->
                 result := Printf.sprintf "LOCKSTEP mismatch step=%d: model stopped at ip=%d but the trace continues" !i (int_of_nat !s.ip);
